@@ -359,3 +359,16 @@ Section AdapterFacts.
     let '(s, o, _) := gym_reset E key in l2x_reset E key = (o, (s, 0%Z)).
   Proof. reflexivity. Qed.
 End AdapterFacts.
+
+(* ================= concrete action wrappers feed the inner environment members of its action space ================= *)
+Lemma clipQ_range lo hi a : (lo <= hi)%Q -> (lo <= clipQ (Fin lo) (Fin hi) a <= hi)%Q.
+Proof.
+  intros H. unfold clipQ, clip_hi, clip_lo. split.
+  - apply Q.min_glb; [apply Q.le_max_r | exact H].
+  - apply Q.le_min_r.
+Qed.
+
+Lemma clipQ_member_fixed lo hi a : (lo <= a <= hi)%Q -> clipQ (Fin lo) (Fin hi) a == a.
+Proof.
+  intros [H1 H2]. unfold clipQ, clip_hi, clip_lo. rewrite Q.max_l by exact H1. apply Q.min_l. exact H2.
+Qed.
